@@ -59,6 +59,10 @@ Section C06.
       (conj (pinv_pinv K k0 k1 kadd kmul ksub kopp kdiv kinv Fth keqb keqb_spec k)
             (pinv_mul K k0 k1 kadd kmul ksub kopp kdiv kinv Fth keqb keqb_spec k)))).
   Qed.
+  (* no cut-off: the pseudo-inverse entry is zero exactly where the entry is zero - a non-zero entry, however
+     small (2^-126 in float32, 2^-1022 in float64), is inverted, never thresholded to 0 *)
+  Theorem pinv_zero_only_at_zero : forall k, pinv k = k0 <-> k = k0.
+  Proof. exact (pinv_zero_iff K k0 k1 kadd kmul ksub kopp kdiv kinv Fth keqb keqb_spec). Qed.
   (* with zeros, D.I(D x) is the projection of x on the non-zero entries *)
   Theorem diag_pinv_projection : forall d x, List.length x = List.length d ->
     emul (map pinv d) (emul d x) = emul (map (fun k => if keqb k k0 then k0 else k1) d) x.
@@ -158,6 +162,7 @@ Print Assumptions diag_inv.
 Print Assumptions diag_inv_matrix.
 Print Assumptions diag_pinv_moore_penrose.
 Print Assumptions pinv_entries.
+Print Assumptions pinv_zero_only_at_zero.
 Print Assumptions diag_pinv_projection.
 Print Assumptions orthogonal_inv_rotation.
 Print Assumptions inverse_two_sided.
@@ -201,6 +206,13 @@ Proof. vm_compute. repeat split. Qed.
    [[3/5,-1/5],[-1/5,2/5]] and its inverse is the operand again *)
 Example c06_pinv_example :
   map kpinv [qc 2; qc 0; Q2Qc (1 # 2)] = [Q2Qc (1 # 2); qc 0; qc 2].
+Proof. vm_compute. reflexivity. Qed.
+(* magnitudes: the smallest normal float32 and float64 numbers, a huge and a negative entry are inverted
+   exactly; only the exact zero is kept (the harness runs the real code over this range, harness/c06.py LADDER) *)
+Example c06_pinv_magnitude_example :
+  map (fun k => this (kpinv k))
+      [Q2Qc (Qmake 1 (2 ^ 126)); qc 0; Q2Qc (Qmake (-1) (2 ^ 1022)); qc (2 ^ 100); Q2Qc (Qmake 1 (2 ^ 30))] =
+  [Qmake (2 ^ 126) 1; Qmake 0 1; Qmake (- 2 ^ 1022) 1; Qmake 1 (2 ^ 100); Qmake (2 ^ 30) 1].
 Proof. vm_compute. reflexivity. Qed.
 Example c06_lazy_example :
   let tb := [(2%N, [[qc 2; qc 1]; [qc 1; qc 3]])] in
